@@ -617,6 +617,7 @@ impl Runner {
         let strat = proptest::collection::vec(proptest::num::u32::ANY, lo..=choices.max(lo));
         let failed = std::cell::Cell::new(false);
         let shrink_calls = std::cell::Cell::new(0u32);
+        let last_fail: RefCell<Option<Vec<u32>>> = RefCell::new(None);
         let acc_cell = RefCell::new(Acc::default());
         let this = &*self;
         let res = runner.run(&strat, |v| {
@@ -638,6 +639,8 @@ impl Runner {
                 Ok(()) => Ok(()),
                 Err(m) => {
                     failed.set(true);
+                    // remember the most recent (= most shrunk so far) choice vector that really failed
+                    *last_fail.borrow_mut() = Some(v.clone());
                     Err(TestCaseError::fail(m))
                 }
             }
@@ -648,6 +651,13 @@ impl Runner {
             match res {
                 Ok(()) => {}
                 Err(TestError::Fail(_, v)) => {
+                    // proptest's final value is only trusted if it still fails; otherwise fall back to the last failing vector seen
+                    let fails = |v: &[u32]| {
+                        let c = gen(&mut Chooser::new(v));
+                        let mut scratch = Acc::default();
+                        this.judge(&mut scratch, family, &c, &check, false).is_err()
+                    };
+                    let v = if fails(&v) { v } else { last_fail.borrow().clone().unwrap_or(v) };
                     let v = minimise(v, |v| {
                         let c = gen(&mut Chooser::new(v));
                         let mut scratch = Acc::default();
